@@ -1,7 +1,7 @@
 (* C04 property theorems (statements only; proofs in Progress.v / Batch.v). *)
 From Coq Require Import List Bool Arith.
 Import ListNotations.
-From Miller Require Import C04.Model C04.Search C04.Progress C04.Batch C04.Termination.
+From Miller Require Import C04.Model C04.Search C04.Progress C04.Batch C04.Termination C04.DataPipeline.
 
 (* Every run of the repaired protocol (non-blocking done-flag sends) can always take a step until main has
    exited: no deadlock, for every number of verbs, every number of batches, every verb behaviour (relaying,
@@ -50,6 +50,26 @@ Theorem C04_every_run_terminates :
   forall s, reachable false (init k kinds) s -> exists s', reachable false s s' /\ is_final s' = true.
 Proof. exact every_run_reaches_final. Qed.
 Print Assumptions C04_every_run_terminates.
+
+(* Schedule independence of the output, for chains without early-exit flags and without failures: in the
+   data-carrying refinement of the protocol (batches of items, every verb an arbitrary deterministic per-batch
+   state machine, bounded FIFO channels), under EVERY interleaving a run that has drained wrote exactly the
+   sequential composition of the verbs applied to the reader's batches -- records in chain-defined order, none
+   lost or duplicated, print/emit text at the position where it was produced (strings are items of the batches). *)
+Theorem C04_schedule_independence_signal_free :
+  forall (item vst : Type) (vs : list (dverb item vst * vst)) (bs : list (batch item)) (s : dstate item vst),
+    dreach item vst (dinit item vst vs bs) s -> dquiescent item vst s ->
+    dwritten item vst s = seq_chain item vst vs bs.
+Proof. exact schedule_independence. Qed.
+Print Assumptions C04_schedule_independence_signal_free.
+
+(* ... and at every moment of every run, what has been written so far is a prefix of that sequential result *)
+Theorem C04_written_is_prefix_of_sequential_result :
+  forall (item vst : Type) (vs : list (dverb item vst * vst)) (bs : list (batch item)) (s : dstate item vst),
+    dreach item vst (dinit item vst vs bs) s ->
+    exists rest, seq_chain item vst vs bs = dwritten item vst s ++ rest.
+Proof. exact written_is_prefix. Qed.
+Print Assumptions C04_written_is_prefix_of_sequential_result.
 
 (* non-vacuity: the initial state is reachable and not final; a three-verb run exists that terminates *)
 Example C04_nonvacuous :
